@@ -18,6 +18,7 @@ func views() map[string]View {
 		"ring":    ringView{},
 		"llist":   llistView{},
 		"elastic": elasticView{},
+		"connio":  connioView{},
 	}
 }
 
